@@ -554,7 +554,7 @@ func CheckLinearizable(res *ChurnResult, timeout time.Duration) (findings []Find
 			sort.Slice(p.raw, func(i, j int) bool { return p.raw[i].Call < p.raw[j].Call })
 			findings = append(findings, Finding{Key: key,
 				What:    fmt.Sprintf("history of %s (%d operations after removing retryable failures) is not linearizable", pk, len(p.ops)),
-				Witness: map[string]any{"partition": pk, "history": p.raw, "removed_failed_attempts": failedOf(res.Ops, pk), "member_log": res.MemberLog, "store_events": storeEvents(res, pk)}})
+				Witness: map[string]any{"partition": pk, "history": p.raw, "removed_failed_attempts": failedOf(res.Ops, pk), "member_log": res.MemberLog, "hook_log": res.HookLog, "store_events": storeEvents(res, pk)}})
 		}
 	}
 	return
